@@ -4,6 +4,7 @@ use crate::inst::{gen_instance, Inst, Profile};
 use crate::prng::Rng;
 
 pub mod net;
+pub mod pipe;
 pub mod tour;
 
 pub fn header(name: &str, scope: &str, seed: u64, k: u64, tier: &str) -> String {
@@ -17,6 +18,15 @@ pub fn generate(scope: &str, name: &str, seed: u64, k: u64, rng: &mut Rng, tier:
             let p = if rng.chance(50) { Profile::small() } else { Profile::medium() };
             let inst = gen_instance(rng, &p);
             head + &net::run(inst)
+        }
+        "pipe" => {
+            let p = match rng.below(10) {
+                0..=3 => Profile::small(),
+                4..=6 => Profile::maint_heavy(),
+                _ => Profile::medium(),
+            };
+            let inst = gen_instance(rng, &p);
+            head + &pipe::run(&inst, &workdir(), name, tier)
         }
         "tour" => {
             let p = Profile::small();
@@ -43,6 +53,7 @@ pub fn rerun(text: &str) -> String {
     let head = format!("{}\n", first);
     match scope {
         "net" => head + &net::run(inst),
+        "pipe" => head + &pipe::run(&inst, &workdir(), t[1], t.get(5).copied().unwrap_or("quick")),
         "tour" => match load_or_report(inst) {
             Err(s) => head + &s,
             Ok(ctx) => head + &ctx.inst.to_text() + &tour::rerun(&ctx, text),
@@ -59,6 +70,12 @@ pub fn load_or_report(inst: Inst) -> Result<Ctx, String> {
     }
 }
 
-pub fn pipe_child(_json: &str, _out: &str) {
-    unimplemented!()
+pub fn pipe_child(case_file: &str, out: &str) {
+    pipe::child(case_file, out)
+}
+
+fn workdir() -> std::path::PathBuf {
+    let d = std::env::current_exe().unwrap().parent().unwrap().join("tmp");
+    std::fs::create_dir_all(&d).unwrap();
+    d
 }
